@@ -30,18 +30,36 @@ func init() {
 			"per-flavor variable/accessor/keyword options); every admissible definition order of the set is replayed on fresh flavors " +
 			"(counter 'histories'), an instance of EVERY flavor is sent the message / probed, observations are compared with the " +
 			"order-free reference model and with each other across orders. A case is non-trivial when some flavor inherits a method, " +
-			"variable, accessor or keyword from a component and (method family) the set has at least two definition orders",
+			"variable, accessor or keyword from a component and (method family) the set has at least two definition orders. " +
+			"Family w (warm histories): probe(flavor) = make-instance + a send of every message of the case is an OPERATION placed between the defining forms " +
+			"(every single (position, flavor), every pair, every subset, all at once - per tier), the instances it makes are sent the messages again at the end; " +
+			"the observation at the end is the specification for the final definitions and equal across orders AND probe placements, an observation at a prefix is the " +
+			"specification for the prefix; with two messages :m / :n, with a definition replaced by a later one, with the other spellings of the definitions, with " +
+			":abstract-flavor / :no-vanilla-flavor / :required-methods components (specification) and :included-flavors (order- and placement-independence only). " +
+			"At the final probe of every method case the message is also delivered by (send inst :send-if-handles :m) and from Go by (*flavors.Instance).Receive and .BoundReceive " +
+			"(same specification, all routes agree); whoppers may continue twice (kind v: everything they wrap runs twice). " +
+			"Family g: undefflavor of a flavor that has dependents and live instances, then the flavor with changed components / variable / options and its dependents again in every order " +
+			"(specification for the final definitions, equal to a world without the first generation), and a second defflavor without removal (refused by slip: every flavor stays what it was)",
 		Assumptions: []string{
-			"one message :m whose daemons only trace and return a constant; whoppers call continue-whopper exactly once",
-			"flavors are defined and used in one package (cl-user); instances are made after all definitions",
-			"no :included-flavors / :required-* options, no method redefinition, no undefmethod inside a history",
+			"messages :m / :n without arguments whose daemons only trace and return a constant; whoppers call continue-whopper once (kind w) or twice (kind v)",
+			"flavors are defined and used in one package (cl-user)",
+			"slip implements the daemon method combination only ((:method-combination ...) is 'not an option to defflavor') and has no undefmethod for flavors: nothing to enumerate there",
+			"precedence with (:included-flavors ...), what make-instance of an abstract / no-vanilla / removed flavor does, what an instance of a removed flavor answers, :default-handler inheritance and the value of a variable declared without default are not constrained by the statement: recorded, compared across orders and probe placements only",
 			"the return value of a send without primary, the handling of an unhandled message, undeclared init keywords and undeclared accessors are not constrained (S2)",
 		},
 		Enumerate: enumerate,
 		Exec:      exec,
 		Required: []string{"histories", "multi-order-case", "late-inherited-method", "diamond-instance", "tree-instance", "chain-instance",
 			"nested-whoppers", "multi-before", "multi-after", "shadowed-primary", "shadowed-default", "inherited-default",
-			"inherited-accessor", "inherited-keyword", "inherited-inittable", "accessor-vs-component-method", "explicit-nil-init-keyword", "message-vanilla-flavor-handles", "keyword-accepted-by-a-component"},
+			"inherited-accessor", "inherited-keyword", "inherited-inittable", "accessor-vs-component-method", "explicit-nil-init-keyword", "message-vanilla-flavor-handles", "keyword-accepted-by-a-component",
+			"nil-default-before-a-later-default", "nil-keyword-default-before-a-later-default",
+			"go-route-receive", "go-route-bound-receive", "go-route-send-if-handles", "handled-message-after-an-unhandled-one", "whopper-continuing-twice", "whopper-continuing-twice-below-a-whopper", "whopper-below-a-whopper-continuing-twice",
+			"warm-histories", "old-instance-probed-again", "probe-before-a-definition-that-changes-the-answer", "probe-before-a-late-definition-on-a-component",
+			"probe-before-a-late-whopper-on-a-component", "probe-before-a-replacement", "method-replaced", "two-message-case", "two-messages-probe-between-definitions",
+			"other-spelling-of-the-definitions", "abstract-component", "no-vanilla-component", "included-flavors-case",
+			"defflavor-refused-for-a-required-method", "defflavor-accepted-with-a-required-method", "warm-variable-histories", "accessor-used-before-a-later-definition",
+			"undefflavor-then-defined-again", "redefinition-with-instances-alive", "flavor-built-on-the-redefined-flavor", "redefinition-changes-the-answer",
+			"redefinition-changes-the-precedence-of-a-flavor-built-on-it", "method-of-the-first-generation-gone", "defflavor-again-for-an-existing-flavor"},
 		Bound:         bound,
 		Selftest:      selftest,
 		CaseDeadlineS: 60,
@@ -57,17 +75,22 @@ func bound(tier string) string {
 			"inherits all others x every set of 3 definitions x ALL orders and x every set of 4 primary/before/whopper definitions x early/late orders (each method directly after its " +
 			"defflavor or after all defflavors, late ones in every permutation, every defflavor order); 5-flavor DAGs with <= 2 components whose last flavor " +
 			"inherits all others x every set of <= 2 definitions x early/late orders. variables: all DAGs on 3 flavors x 9 option tokens per flavor, " +
-			"all 160 DAGs on 4 flavors x 6 option tokens per flavor, every defflavor order"
+			"all 160 DAGs on 4 flavors x 6 option tokens per flavor, every defflavor order; nil / absent / keyword defaults: 2-3 flavors x 8 tokens, 4 flavors (top-only) x 5 tokens; " +
+			"3-flavor variable histories also warm (every flavor probed after every defflavor). " + boundWarm(tier)
 	}
 	return "methods: all 10 DAGs on 3 flavors x every set of <= 3 of the 12 (flavor x primary/before/after/whopper) definitions x ALL definition orders; " +
 		"the 4-flavor DAGs (<= 3 ordered components) whose last flavor inherits all others x every set of <= 2 of 16 definitions x ALL orders, and x every set of 3 " +
 		"primary/before/whopper or primary/after definitions restricted to early/late orders (each method directly after its defflavor or after all defflavors, late ones in every permutation). " +
-		"variables: all 10 DAGs on 3 flavors x 9 option tokens per flavor (x default, bare gettable/settable/inittable, init keyword, second variable y), every defflavor order"
+		"variables: all 10 DAGs on 3 flavors x 9 option tokens per flavor (x default, bare gettable/settable/inittable, init keyword, second variable y) and 2-3 flavors x 8 tokens " +
+		"((x nil), bare x, :default-init-plist (:k v) / (:k nil) against declarations with a value), every defflavor order, cold and warm (every flavor probed after every defflavor). " + boundWarm(tier)
 }
 
 var (
 	tokens9 = []string{"-", "x", "xg", "xs", "xi", "xgsi", "k", "xk", "y"}
 	tokens6 = []string{"-", "x", "xg", "xi", "k", "y"}
+	// declarations with a nil default / without default / keyword defaults, against declarations with a value
+	tokensNil  = []string{"-", "x", "xn", "xu", "xg", "k", "kd", "kn"}
+	tokensNil4 = []string{"-", "x", "xn", "kd", "kn"}
 )
 
 func enumerate(tier string, emit func(string)) {
@@ -82,6 +105,7 @@ func enumerate(tier string, emit func(string)) {
 			}
 		}
 	}
+	vsuffix := ""
 	emitV := func(dags [][][]int, toks []string) {
 		for _, d := range dags {
 			n := len(d)
@@ -91,7 +115,7 @@ func enumerate(tier string, emit func(string)) {
 				for i, t := range idx {
 					parts[i] = toks[t]
 				}
-				emit("v|" + dagString(d) + "|" + strings.Join(parts, ","))
+				emit("v|" + dagString(d) + "|" + strings.Join(parts, ",") + vsuffix)
 				i := n - 1
 				for ; 0 <= i; i-- {
 					idx[i]++
@@ -106,7 +130,28 @@ func enumerate(tier string, emit func(string)) {
 			}
 		}
 	}
+	// whoppers that continue twice (kind v; a flavor has one whopper: w or v): the sets that contain one
+	emitTwice := func(dags [][][]int, kmax int, mode string) {
+		for _, d := range dags {
+		next:
+			for _, ms := range methSubsets(len(d), kmax, allKinds+"v") {
+				has := false
+				for _, m := range ms {
+					if m.kind == 'v' {
+						has = true
+						if hasMeth(ms, m.f, 'w') {
+							continue next
+						}
+					}
+				}
+				if has {
+					emit("m|" + dagString(d) + "|" + methString(ms) + "|" + mode)
+				}
+			}
+		}
+	}
 	// simplest first
+	enumUnhandled(emit)
 	enumAccessors(emit)
 	enumNilinit(emit)
 	emitM(allDags(2, 3, false), 0, 3, "all", allKinds)
@@ -122,20 +167,41 @@ func enumerate(tier string, emit func(string)) {
 	}
 	emitVanilla(allDags(2, 3, false), 1, 3)
 	emitVanilla(allDags(3, 3, false), 1, 2)
+	emitTwice(allDags(2, 3, false), 3, "all")
+	emitTwice(allDags(3, 3, false), 2, "all")
+	if tier == engine.Thorough {
+		emitTwice(allDags(3, 3, false), 3, "all")
+		emitTwice(allDags(4, 3, true), 2, "all")
+	} else {
+		emitTwice(allDags(3, 3, false), 3, "el")
+	}
+	defer enumRegen(tier, emit)
+	defer enumWarm(tier, emit)
 	if tier == engine.Thorough {
 		emitVanilla(allDags(3, 3, false), 3, 3)
 		emitVanilla(allDags(4, 3, false), 1, 2)
 		emitM(allDags(3, 3, false), 0, 4, "all", allKinds)
+		vsuffix = "|hot"
 		emitV(allDags(3, 3, false), tokens9)
+		vsuffix = ""
 		emitM(allDags(4, 3, false), 0, 2, "all", allKinds)
 		emitM(allDags(4, 3, true), 3, 3, "all", allKinds)
 		emitM(allDags(4, 3, true), 4, 4, "el", "pbw")
 		emitV(allDags(4, 3, false), tokens6)
+		vsuffix = "|hot"
+		emitV(allDags(2, 3, false), tokensNil)
+		emitV(allDags(3, 3, false), tokensNil)
+		emitV(allDags(4, 3, true), tokensNil4)
+		vsuffix = ""
 		emitM(allDags(5, 2, true), 0, 2, "el", allKinds)
 		return
 	}
 	emitM(allDags(3, 3, false), 0, 3, "all", allKinds)
+	vsuffix = "|hot"
 	emitV(allDags(3, 3, false), tokens9)
+	emitV(allDags(2, 3, false), tokensNil)
+	emitV(allDags(3, 3, false), tokensNil)
+	vsuffix = ""
 	emitM(allDags(4, 3, true), 0, 2, "all", allKinds)
 	emitM(allDags(4, 3, true), 3, 3, "el", "pbw")
 	emitM(allDags(4, 3, true), 3, 3, "el", "pa")
@@ -176,8 +242,13 @@ func flavorSrc(names []string, comps [][]int, f int, o fopt) string {
 	b.WriteString("(defflavor ")
 	b.WriteString(names[f])
 	b.WriteString(" (")
-	if o.x {
-		fmt.Fprintf(&b, "(x %d)", xDefault(f))
+	switch {
+	case o.x && o.xnil:
+		b.WriteString("(x nil)")
+	case o.x && o.xplain:
+		b.WriteString("x")
+	case o.x:
+		fmt.Fprintf(&b, "(x %d)", o.xdef(f))
 	}
 	if o.y {
 		if o.x {
@@ -208,6 +279,12 @@ func flavorSrc(names []string, comps [][]int, f int, o fopt) string {
 	if o.k {
 		b.WriteString(" (:init-keywords :k)")
 	}
+	if o.kd {
+		fmt.Fprintf(&b, " (:default-init-plist (:k %d))", kDefault(f))
+	}
+	if o.kn {
+		b.WriteString(" (:default-init-plist (:k nil))")
+	}
 	b.WriteString(")")
 	return b.String()
 }
@@ -233,6 +310,9 @@ func methSrcM(names []string, m meth) string {
 		return fmt.Sprintf("(defmethod (%s :before :m) () (tr 'b%s) 'xb)", names[m.f], id)
 	case 'a':
 		return fmt.Sprintf("(defmethod (%s :after :m) () (tr 'a%s) 'xa)", names[m.f], id)
+	case 'v':
+		// a whopper that continues twice: everything it wraps runs twice
+		return fmt.Sprintf("(defwhopper (%s :m) () (tr 'vi%s) (continue-whopper) (let ((r (continue-whopper))) (tr 'vo%s) r))", names[m.f], id, id)
 	default:
 		return fmt.Sprintf("(defwhopper (%s :m) () (tr 'wi%s) (let ((r (continue-whopper))) (tr 'wo%s) r))", names[m.f], id, id)
 	}
@@ -304,6 +384,64 @@ type sendObs struct {
 	err    string
 	prec   string
 	combos string
+	// the same message delivered from Go (the extension interface): (*flavors.Instance).Receive and .BoundReceive
+	recv, bound *sendObs
+	// the same message by way of (send inst :send-if-handles :m), the other Lisp route slip has
+	sendIf *sendObs
+}
+
+// goRoutes delivers msg to the instance the way Go code does: Receive (the route of send) and BoundReceive (all
+// arguments already bound in a scope; Method.BoundCall / BoundInnerCall instead of Call / InnerCall).
+func goRoutes(inst slip.Object, msg string) (recv, bound, sendIf *sendObs) {
+	fi, ok := inst.(*flavors.Instance)
+	if !ok {
+		return nil, nil, nil
+	}
+	call := func(f func() slip.Object) *sendObs {
+		var o sendObs
+		lisp.ResetTrace()
+		func() {
+			defer func() {
+				if rec := recover(); rec != nil {
+					err := lisp.ErrFromRecovered(rec)
+					o.err = err.Class
+					if err.GoFault {
+						o.err = "go-fault " + err.String()
+					}
+				}
+			}()
+			o.ret = lisp.Show(f())
+		}()
+		o.trace = lisp.Trace()
+		return &o
+	}
+	recv = call(func() slip.Object { return fi.Receive(slip.NewScope(), msg, slip.List{}, 0) })
+	bound = call(func() slip.Object { return fi.BoundReceive(slip.NewScope(), msg, nil, 0) })
+	if fi.GetMethod(":send-if-handles") != nil {
+		scope := slip.NewScope()
+		scope.Let(slip.Symbol("inst"), inst)
+		o := sendMsg(scope, ":send-if-handles "+msg)
+		sendIf = &o
+	}
+	return
+}
+
+// judgeRoutes: the Go routes follow the same specification as send and so agree with it.
+func judgeRoutes(res *engine.Result, fail func(sig, detail string), sh string, o sendObs, expTrace []string, expRet, suffix, where string, normRet func(string) string) {
+	for _, r := range []struct {
+		name string
+		o    *sendObs
+	}{{"receive", o.recv}, {"bound-receive", o.bound}, {"send-if-handles", o.sendIf}} {
+		if r.o == nil {
+			continue
+		}
+		res.Hit("go-route-" + r.name)
+		ro := *r.o
+		if normRet != nil {
+			ro.ret = normRet(ro.ret)
+		}
+		judgeSend(fail, sh, ro, expTrace, expRet, suffix+" route="+r.name, where+" delivered from Go by "+r.name, "")
+	}
 }
 
 func (o sendObs) key() string {
@@ -326,7 +464,7 @@ func runMethodHistory(comps [][]int, ms []meth, order []form) (h history) {
 		if fm.isMeth {
 			src = methSrc(names, ms[fm.idx])
 			what = "defmethod"
-			if ms[fm.idx].kind == 'w' {
+			if ms[fm.idx].kind == 'w' || ms[fm.idx].kind == 'v' {
 				what = "defwhopper"
 			}
 		} else {
@@ -367,6 +505,7 @@ func runMethodHistory(comps [][]int, ms []meth, order []form) (h history) {
 			}
 		}
 		o.combos = combosOf(names[f], names)
+		o.recv, o.bound, o.sendIf = goRoutes(inst, curMsg)
 		h.obs[f] = o
 	}
 	return
@@ -409,7 +548,9 @@ func diffKind(exp, got []string) string {
 	return "misordered"
 }
 
-var daemonNames = map[byte]string{'w': "whopper", 'b': "before", 'p': "primary", 'a': "after"}
+var daemonNames = map[byte]string{'w': "whopper", 'b': "before", 'p': "primary", 'a': "after", 'v': "whopper-continuing-twice"}
+
+var judgedKinds = []byte{'w', 'v', 'b', 'p', 'a'}
 
 func execMethods(spec string, parts []string) (res engine.Result) {
 	curMsg = ":m"
@@ -469,9 +610,20 @@ func execMethods(spec string, parts []string) (res engine.Result) {
 		if handled {
 			res.Hit(sh + "-instance")
 			nw, nb, na, np := 0, 0, 0, 0
+			vAbove := false
 			for _, g := range prec {
-				if hasMeth(ms, g, 'w') {
+				if hasMeth(ms, g, 'w') || hasMeth(ms, g, 'v') {
 					nw++
+				}
+				if (hasMeth(ms, g, 'w') || hasMeth(ms, g, 'v')) && vAbove {
+					res.Hit("whopper-below-a-whopper-continuing-twice")
+				}
+				if hasMeth(ms, g, 'v') {
+					vAbove = true
+					res.Hit("whopper-continuing-twice")
+					if 1 < nw {
+						res.Hit("whopper-continuing-twice-below-a-whopper")
+					}
 				}
 				if hasMeth(ms, g, 'b') {
 					nb++
@@ -482,7 +634,7 @@ func execMethods(spec string, parts []string) (res engine.Result) {
 				if hasMeth(ms, g, 'p') {
 					np++
 				}
-				if g != f && (hasMeth(ms, g, 'w') || hasMeth(ms, g, 'b') || hasMeth(ms, g, 'a') || hasMeth(ms, g, 'p')) {
+				if g != f && (hasMeth(ms, g, 'w') || hasMeth(ms, g, 'v') || hasMeth(ms, g, 'b') || hasMeth(ms, g, 'a') || hasMeth(ms, g, 'p')) {
 					inherits = true
 				}
 			}
@@ -580,7 +732,7 @@ func execMethods(spec string, parts []string) (res engine.Result) {
 				continue
 			}
 			anyDiff := false
-			for _, kind := range []byte{'w', 'b', 'p', 'a'} {
+			for _, kind := range judgedKinds {
 				if dk := diffKind(project(expTrace, kind), project(o.trace, kind)); dk != "" {
 					anyDiff = true
 					fail(fmt.Sprintf("send shape=%s daemon=%s kind=%s %s", sh, daemonNames[kind], dk, suffix), where+tail)
@@ -595,6 +747,12 @@ func execMethods(spec string, parts []string) (res engine.Result) {
 				// with the right daemons run, the value of the send is the first primary's value
 				fail(fmt.Sprintf("send shape=%s kind=wrong-return %s", sh, suffix), where+tail)
 			}
+			judgeRoutes(&res, fail, sh, o, expTrace, expRet, suffix, where, func(r string) string {
+				if curMsg != ":m" && !(strings.HasPrefix(r, "r") && len(r) == 2) {
+					return "<value-of-the-vanilla-method>"
+				}
+				return r
+			})
 		}
 	}
 	res.Nontrivial = inherits && 1 < len(hs)
@@ -609,6 +767,7 @@ type varObs struct {
 	getx        string // (send inst :x)
 	setx        string // x after (send inst :set-x 77)
 	kw          string // (make-instance 'f :k 5): "ok" or error class
+	kdef        string // the default value of keyword :k as describe-flavor shows it ("-" when it shows no :k)
 	initx       string // x after (make-instance 'f :x 99), or error
 	inity       string
 	prec        string
@@ -616,7 +775,7 @@ type varObs struct {
 }
 
 func (o varObs) key() string {
-	return fmt.Sprintf("x0=%s y0=%s getx=%s setx=%s kw=%s initx=%s inity=%s prec=%s err=%s", o.x0, o.y0, o.getx, o.setx, o.kw, o.initx, o.inity, o.prec, o.instanceErr)
+	return fmt.Sprintf("x0=%s y0=%s getx=%s setx=%s kw=%s kdef=%s initx=%s inity=%s prec=%s err=%s", o.x0, o.y0, o.getx, o.setx, o.kw, o.kdef, o.initx, o.inity, o.prec, o.instanceErr)
 }
 
 func slotOf(inst slip.Object, name string) string {
@@ -647,72 +806,142 @@ func errText(err *lisp.Err) string {
 }
 
 type varHistory struct {
-	order  []int
-	defErr string
-	obs    []varObs
+	order   []int
+	defErr  string
+	obs     []varObs
+	hot     bool
+	changed []string // [flavor] how its answers changed while flavors were built on it ("" = not)
+	oldGetx []string // [flavor] what the instance made right after the defflavor answers to :x at the end
 }
 
-func runVarHistory(comps [][]int, opts []fopt, ds []int) (h varHistory) {
+// probeVars makes an instance of one flavor and uses its variable, accessors and init keywords.
+func probeVars(names []string, f int) (o varObs, scope *slip.Scope) {
+	scope = slip.NewScope()
+	inst, err := lisp.EvalIn(scope, "(make-instance '"+names[f]+")")
+	if err != nil {
+		o.instanceErr = rename(err.String(), names)
+		return o, nil
+	}
+	o.prec = hierarchyOf(inst, names)
+	o.x0, o.y0 = slotOf(inst, "x"), slotOf(inst, "y")
+	scope.Let(slip.Symbol("inst"), inst)
+	if v, err := lisp.EvalIn(scope, "(send inst :x)"); err != nil {
+		o.getx = errText(err)
+	} else {
+		o.getx = lisp.Show(v)
+	}
+	if _, err := lisp.EvalIn(scope, "(send inst :set-x 77)"); err != nil {
+		o.setx = errText(err)
+	} else {
+		o.setx = slotOf(inst, "x")
+	}
+	if _, err := lisp.Eval("(make-instance '" + names[f] + " :k 5)"); err != nil {
+		o.kw = errText(err)
+	} else {
+		o.kw = "ok"
+	}
+	o.kdef = keywordDefaultOf(names[f])
+	if v, err := lisp.Eval("(make-instance '" + names[f] + " :x 99)"); err != nil {
+		o.initx = errText(err)
+	} else {
+		o.initx = slotOf(v, "x")
+	}
+	if v, err := lisp.Eval("(make-instance '" + names[f] + " :y 98)"); err != nil {
+		o.inity = errText(err)
+	} else {
+		o.inity = slotOf(v, "y")
+	}
+	return
+}
+
+// runVarHistory: hot = every flavor that exists is probed after EVERY defflavor form (not only at the end); what a
+// flavor answers may not change when flavors are built on it, and the instance made first answers at the end like a
+// new one.
+func runVarHistory(comps [][]int, opts []fopt, ds []int, hot bool) (h varHistory) {
 	n := len(comps)
 	names := freshNames(n)
 	defer cleanup(names)
 	h.order = ds
-	for _, d := range ds {
+	h.hot = hot
+	h.changed = make([]string, n)
+	h.oldGetx = make([]string, n)
+	first := make([]*varObs, n)
+	olds := make([]*slip.Scope, n)
+	defined := make([]bool, n)
+	for i, d := range ds {
 		if _, err := lisp.Eval(flavorSrc(names, comps, d, opts[d])); err != nil && h.defErr == "" {
 			h.defErr = "defflavor: " + rename(err.String(), names)
 			if err.GoFault {
 				h.defErr = "go-fault in " + h.defErr
 			}
 		}
+		defined[d] = true
+		if !hot || i == len(ds)-1 {
+			continue
+		}
+		for f := 0; f < n; f++ {
+			if !defined[f] {
+				continue
+			}
+			o, scope := probeVars(names, f)
+			if first[f] == nil {
+				first[f], olds[f] = &o, scope
+			} else if o.key() != first[f].key() && h.changed[f] == "" {
+				h.changed[f] = fmt.Sprintf("after its defflavor {%s}, after the defflavor of f%d {%s}", first[f].key(), d, o.key())
+			}
+		}
 	}
 	h.obs = make([]varObs, n)
 	for f := 0; f < n; f++ {
-		var o varObs
-		scope := slip.NewScope()
-		inst, err := lisp.EvalIn(scope, "(make-instance '"+names[f]+")")
-		if err != nil {
-			o.instanceErr = rename(err.String(), names)
-			h.obs[f] = o
-			continue
+		h.obs[f], _ = probeVars(names, f)
+		if first[f] != nil && h.changed[f] == "" && first[f].key() != h.obs[f].key() {
+			h.changed[f] = fmt.Sprintf("after its defflavor {%s}, at the end {%s}", first[f].key(), h.obs[f].key())
 		}
-		o.prec = hierarchyOf(inst, names)
-		o.x0, o.y0 = slotOf(inst, "x"), slotOf(inst, "y")
-		scope.Let(slip.Symbol("inst"), inst)
-		if v, err := lisp.EvalIn(scope, "(send inst :x)"); err != nil {
-			o.getx = errText(err)
-		} else {
-			o.getx = lisp.Show(v)
+		if olds[f] != nil {
+			// the old instance: x was set to 77 when its flavor allowed that
+			want := slotOf(olds[f].Get(slip.Symbol("inst")), "x")
+			if v, err := lisp.EvalIn(olds[f], "(send inst :x)"); err != nil {
+				h.oldGetx[f] = errText(err)
+			} else if lisp.Show(v) != want {
+				h.oldGetx[f] = "answers " + lisp.Show(v) + ", x holds " + want
+			} else {
+				h.oldGetx[f] = "ok"
+			}
 		}
-		if _, err := lisp.EvalIn(scope, "(send inst :set-x 77)"); err != nil {
-			o.setx = errText(err)
-		} else {
-			o.setx = slotOf(inst, "x")
-		}
-		if _, err := lisp.Eval("(make-instance '" + names[f] + " :k 5)"); err != nil {
-			o.kw = errText(err)
-		} else {
-			o.kw = "ok"
-		}
-		if v, err := lisp.Eval("(make-instance '" + names[f] + " :x 99)"); err != nil {
-			o.initx = errText(err)
-		} else {
-			o.initx = slotOf(v, "x")
-		}
-		if v, err := lisp.Eval("(make-instance '" + names[f] + " :y 98)"); err != nil {
-			o.inity = errText(err)
-		} else {
-			o.inity = slotOf(v, "y")
-		}
-		h.obs[f] = o
 	}
 	return
 }
 
+// keywordDefaultOf reads the default value of keyword :k from the text describe-flavor prints ("Keywords with default
+// values:" section), "-" when :k is not listed.
+func keywordDefaultOf(name string) string {
+	f := flavors.Find(name)
+	if f == nil {
+		return "?"
+	}
+	text := string(f.Describe(nil, 0, 200, false))
+	i := strings.Index(text, "Keywords with default values:")
+	if i < 0 {
+		return "-"
+	}
+	for _, line := range strings.Split(text[i:], "\n")[1:] {
+		t := strings.TrimSpace(line)
+		if strings.HasPrefix(t, ":k = ") {
+			return strings.TrimPrefix(t, ":k = ")
+		}
+		if !strings.HasPrefix(t, ":") {
+			break
+		}
+	}
+	return "-"
+}
+
 func execVars(spec string, parts []string) (res engine.Result) {
-	if len(parts) != 3 {
+	if len(parts) != 3 && !(len(parts) == 4 && parts[3] == "hot") {
 		res.Fail("harness:bad-spec", spec)
 		return
 	}
+	hot := len(parts) == 4
 	comps := parseDag(parts[1])
 	n := len(comps)
 	toks := strings.Split(parts[2], ",")
@@ -731,7 +960,11 @@ func execVars(spec string, parts []string) (res engine.Result) {
 	}
 	var hs []varHistory
 	genFlavorOrders(comps, func(ds []int) {
-		hs = append(hs, runVarHistory(comps, opts, ds))
+		hs = append(hs, runVarHistory(comps, opts, ds, false))
+		if hot && 1 < len(ds) {
+			hs = append(hs, runVarHistory(comps, opts, ds, true))
+			res.Hit("warm-variable-histories")
+		}
 	})
 	if res.Counters == nil {
 		res.Counters = map[string]int{}
@@ -827,11 +1060,31 @@ func execVars(spec string, parts []string) (res engine.Result) {
 			if e.yDefault != nil && o.y0 != strconv.Itoa(*e.yDefault) {
 				fail(sig("default-y", "wrong-value"), fmt.Sprintf("%s: y is %s after make-instance, required %d", where, o.y0, *e.yDefault))
 			}
-			if e.xGettable && e.xDefault != nil && o.getx != o.x0 {
+			if h.hot {
+				if h.changed[f] != "" {
+					fail(fmt.Sprintf("vars-warm shape=%s kind=answers-change-when-flavors-are-built-on-it", sh), where+": "+h.changed[f])
+				}
+				if e.xGettable && (e.xDefault != nil || e.xNil) && h.oldGetx[f] != "" && h.oldGetx[f] != "ok" {
+					fail(fmt.Sprintf("vars-warm shape=%s kind=old-instance-getter", sh), where+": the instance made right after the defflavor: (send inst :x) "+h.oldGetx[f])
+				}
+			}
+			if e.xNilShadows {
+				res.Hit("nil-default-before-a-later-default")
+			}
+			if e.kNilShadows {
+				res.Hit("nil-keyword-default-before-a-later-default")
+			}
+			if e.xNil && o.x0 != "nil" {
+				fail(sig("default", "wrong-value"), fmt.Sprintf("%s: x is %s after make-instance, required nil (the first flavor in precedence that declares x declares (x nil))", where, o.x0))
+			}
+			if e.kDefault != nil && o.kdef != *e.kDefault {
+				fail(sig("init-keyword-default", "wrong-value"), fmt.Sprintf("%s: describe-flavor shows :k = %s, required %s (:default-init-plist of the first flavor in precedence that declares :k)", where, o.kdef, *e.kDefault))
+			}
+			if e.xGettable && (e.xDefault != nil || e.xNil) && o.getx != o.x0 {
 				kind := demandKind(o.getx)
 				fail(sig("getter", kind), fmt.Sprintf("%s: (send inst :x) gives %s, x holds %s; a flavor in precedence declares :gettable-instance-variables", where, o.getx, o.x0))
 			}
-			if e.xSettable && e.xDefault != nil && o.setx != "77" {
+			if e.xSettable && (e.xDefault != nil || e.xNil || e.xPlain) && o.setx != "77" {
 				kind := demandKind(o.setx)
 				fail(sig("setter", kind), fmt.Sprintf("%s: after (send inst :set-x 77) x is %s; a flavor in precedence declares :settable-instance-variables", where, o.setx))
 			}
@@ -891,6 +1144,12 @@ func exec(spec string) (res engine.Result) {
 		return execAccessors(spec, parts)
 	case "nilinit":
 		return execNilinit(spec, parts)
+	case "w":
+		return execWarm(spec, parts)
+	case "g":
+		return execRegen(spec, parts)
+	case "unh":
+		return execUnhandled(spec, parts)
 	}
 	res.Fail("harness:bad-spec", spec)
 	return
@@ -946,6 +1205,14 @@ func selftest(tier string) (killed, total int, notes []string) {
 						found = fmt.Sprintf("v|%s f%d: x default %d vs %d", dagString(c.comps), f, *a.xDefault, *b.xDefault)
 						break
 					}
+					if a.xNil && b.xDefault != nil {
+						found = fmt.Sprintf("v|%s f%d: x default nil vs %d", dagString(c.comps), f, *b.xDefault)
+						break
+					}
+					if a.kDefault != nil && b.kDefault != nil && *a.kDefault != *b.kDefault {
+						found = fmt.Sprintf("v|%s f%d: :k default %s vs %s", dagString(c.comps), f, *a.kDefault, *b.kDefault)
+						break
+					}
 				}
 				if found != "" {
 					break
@@ -966,6 +1233,13 @@ func selftest(tier string) (killed, total int, notes []string) {
 		for _, c := range mcases {
 			if found != "" {
 				break
+			}
+			twice := false
+			for _, m := range c.ms {
+				twice = twice || m.kind == 'v'
+			}
+			if twice {
+				continue // the table simulations know one kind of whopper
 			}
 			genOrders(c.comps, c.ms, c.mode, func(order []form) {
 				if found != "" {
@@ -990,5 +1264,7 @@ func selftest(tier string) (killed, total int, notes []string) {
 			notes = append(notes, sv.name+": NOT distinguished")
 		}
 	}
+	wk, wt, wn := selftestWarm(tier)
+	killed, total, notes = killed+wk, total+wt, append(notes, wn...)
 	return
 }
